@@ -109,7 +109,7 @@ func runC14(r *Report) {
 			} else {
 				r.OK("C14/one-response", p.Name+":API.ServeHTTP", s3.pos(sm.Decl.Pos()), "")
 			}
-			if rp.M.AuthOrFn != nil {
+			if rp.M.AuthOrFn != nil || rp.M.DirectOr {
 				if ok, why := recogniseOrCombinator(p, rp.M); ok {
 					r.OK("C14/one-response", p.Name+":authMiddlewareOr", "", "")
 				} else {
